@@ -113,7 +113,7 @@ def encode_to_dict(obj: Any, refs: Dict[int, Any]):
         elif isinstance(obj, colang_ast_module.SpecType):
             value = {"__type": "SpecType", "value": obj.value}
         elif isinstance(obj, Action):
-            value = {"__type": "Action", "value": obj.to_dict()}
+            value = {"__type": "Action", "value": encode_to_dict(obj.to_dict(), refs)}
         elif isinstance(obj, datetime):
             value = {"__type": "datetime", "value": obj.isoformat()}
         elif isinstance(obj, re.Pattern):
